@@ -167,7 +167,9 @@ Definition fixed := {| fix_dp := true; fix_nonfinite := true; fix_prefix := true
 
 Inductive nmeth := NMax | NSum.
 Inductive arr := AProf | APerr | ADp.
-Inductive op := ONorm (m : nmeth) | OUnnorm | ORead (a : arr).
+(* OEe / ORi: a call of calc_ee_at_radius / calc_radius_at_ee (both read self.profile, which
+   caches it, and build their interpolator from the CURRENT profile at every call) *)
+Inductive op := ONorm (m : nmeth) | OUnnorm | ORead (a : arr) | OEe | ORi.
 
 (* float ops with NaN propagation; the scalar may itself be NaN *)
 Definition vdiv (n : val) (x : val) : val :=
@@ -194,6 +196,47 @@ Fixpoint nanmax (l : list val) : val :=
   end.
 Definition nansum (l : list val) : val :=
   Some (fold_right (fun x acc => match x with Some a => (a + acc)%Q | None => acc end) 0%Q l).
+
+(* ---------- encircled-energy interpolators (curve_of_growth.py:284-352) ---------- *)
+Fixpoint all_some (l : list val) : option (list Q) :=
+  match l with
+  | [] => Some []
+  | Some q :: r => option_map (cons q) (all_some r)
+  | None :: _ => None
+  end.
+(* np.diff(profile) <= 0 at one position (False for NaN) *)
+Definition nonincr (a b : val) : bool :=
+  match a, b with Some x, Some y => Qle_bool y x | _, _ => false end.
+(* np.argmax(diff) when np.any(diff) *)
+Fixpoint first_nonmono (l : list val) : option nat :=
+  match l with
+  | a :: ((b :: _) as r) => if nonincr a b then Some O else option_map S (first_nonmono r)
+  | _ => None
+  end.
+Definition prefix_len (V : variant) (l : list val) : nat :=
+  match first_nonmono l with
+  | Some i => if fix_prefix V then S i else i
+  | None => length l
+  end.
+Inductive eres := EErr | EVal (v : val).
+
+Section EE.
+(* scipy.interpolate.PchipInterpolator(x, y, extrapolate=False)(t): not modelled *)
+Variable pchip : list Q -> list Q -> Q -> val.
+Variable V : variant.
+Definition calc_ee_at_radius (radius : list Q) (profile : list val) (r : Q) : eres :=
+  match all_some profile with
+  | None => EErr                                   (* "`y` must contain only finite values" *)
+  | Some ys => EVal (pchip radius ys r)
+  end.
+Definition calc_radius_at_ee (radius : list Q) (profile : list val) (ee : Q) : eres :=
+  let k := prefix_len V profile in
+  if (k <? 2)%nat then EErr
+  else match all_some (firstn k profile) with
+       | None => EErr
+       | Some xs => EVal (pchip xs (firstn k radius) ee)
+       end.
+End EE.
 
 (* instance __dict__: normalization_value and the lazily cached arrays *)
 Record state := { nv : val; c_prof : option (list val); c_perr : option (list eval);
@@ -245,7 +288,10 @@ Definition normalize (m : nmeth) (st : state) : state :=
 Definition unnormalize (st : state) : state :=
   rescale (vmul (nv st)) (emul (nv st)) (Some 1%Q) st.
 
-Inductive obs := OP (a : list val) | OE (a : list eval) | ONone.
+(* OI a: the interpolator was built on profile a (all finite); OErr: it raises (NaN knot);
+   ORc a: calc_radius_at_ee ran its prefix logic on profile a *)
+Inductive obs := OP (a : list val) | OE (a : list eval) | ONone
+               | OI (a : list val) | ORc (a : list val) | OErr.
 
 Definition step (o : op) (st : state) : state * obs :=
   match o with
@@ -260,6 +306,8 @@ Definition step (o : op) (st : state) : state * obs :=
                                       c_dp := Some (get_d st) |}, OP (get_d st))
                  | None => (st, ONone)                     (* AttributeError; not generated *)
                  end
+  | OEe => (cache_p st, match all_some (get_p st) with Some _ => OI (get_p st) | None => OErr end)
+  | ORi => (cache_p st, ORc (get_p st))
   end.
 
 Fixpoint run (ops : list op) (st : state) : state * list (val * obs) :=
@@ -270,47 +318,6 @@ Fixpoint run (ops : list op) (st : state) : state * list (val * obs) :=
   end.
 Definition final (ops : list op) : state := fst (run ops init).
 End Machine.
-
-(* ---------- encircled-energy interpolators (curve_of_growth.py:284-352) ---------- *)
-Fixpoint all_some (l : list val) : option (list Q) :=
-  match l with
-  | [] => Some []
-  | Some q :: r => option_map (cons q) (all_some r)
-  | None :: _ => None
-  end.
-(* np.diff(profile) <= 0 at one position (False for NaN) *)
-Definition nonincr (a b : val) : bool :=
-  match a, b with Some x, Some y => Qle_bool y x | _, _ => false end.
-(* np.argmax(diff) when np.any(diff) *)
-Fixpoint first_nonmono (l : list val) : option nat :=
-  match l with
-  | a :: ((b :: _) as r) => if nonincr a b then Some O else option_map S (first_nonmono r)
-  | _ => None
-  end.
-Definition prefix_len (V : variant) (l : list val) : nat :=
-  match first_nonmono l with
-  | Some i => if fix_prefix V then S i else i
-  | None => length l
-  end.
-Inductive eres := EErr | EVal (v : val).
-
-Section EE.
-(* scipy.interpolate.PchipInterpolator(x, y, extrapolate=False)(t): not modelled *)
-Variable pchip : list Q -> list Q -> Q -> val.
-Variable V : variant.
-Definition calc_ee_at_radius (radius : list Q) (profile : list val) (r : Q) : eres :=
-  match all_some profile with
-  | None => EErr                                   (* "`y` must contain only finite values" *)
-  | Some ys => EVal (pchip radius ys r)
-  end.
-Definition calc_radius_at_ee (radius : list Q) (profile : list val) (ee : Q) : eres :=
-  let k := prefix_len V profile in
-  if (k <? 2)%nat then EErr
-  else match all_some (firstn k profile) with
-       | None => EErr
-       | Some xs => EVal (pchip xs (firstn k radius) ee)
-       end.
-End EE.
 
 (* ---------- correspondence ---------- *)
 Definition two40 : Q := inject_Z (2 ^ 40).
@@ -333,13 +340,6 @@ Definition eclose (vbig : Q) (m : eval) (x : val) : bool :=
   end.
 Definition veq_exact (a b : val) : bool := vclose true a b.
 
-Definition obs_ok (exact : bool) (vbig : Q) (m : obs) (x : option (list val)) : bool :=
-  match m, x with
-  | ONone, None => true
-  | OP a, Some b => all2 (vclose exact) a b
-  | OE a, Some b => all2 (eclose vbig) a b
-  | _, _ => false
-  end.
 
 Fixpoint zmaxl (l : list (option Z)) : Z :=
   match l with [] => 0 | Some v :: r => Z.max v (zmaxl r) | None :: r => zmaxl r end.
@@ -348,17 +348,6 @@ Fixpoint has_norm (ops : list op) : bool :=
   match ops with [] => false | ONorm _ :: _ => true | _ :: r => has_norm r end.
 (* observations op by op: exact comparison of curve-of-growth values until the first
    normalize, rounding tolerance afterwards *)
-Fixpoint trace_ok (cogexact : bool) (vbig : Q) (ops : list op) (ms : list (val * obs))
-         (xs : list (val * option (list val))) : bool :=
-  match ops, ms, xs with
-  | [], [], [] => true
-  | o :: ops', (mnv, mo) :: ms', (xnv, xo) :: xs' =>
-      let ex := cogexact && negb (match o with ONorm _ => true | _ => false end) in
-      vclose ex mnv xnv && obs_ok ex vbig mo xo &&
-      trace_ok ex vbig ops' ms' xs'
-  | _, _, _ => false
-  end.
-
 (* what the harness observed of calc_radius_at_ee(profile[i]), i = 0..n-1:
    None = ValueError; class 0 = NaN, 1 = radius[i] (to 1e-9), 2 = another finite value *)
 Definition ee_ok (V : variant) (radius : list Q) (profile : list val)
@@ -382,11 +371,46 @@ Definition ee_ok (V : variant) (radius : list Q) (profile : list val)
       end
   end.
 
+(* interpolated value at a knot: |x - m| <= 2^-30 |m| *)
+Definition iclose (m x : val) : bool :=
+  match m, x with
+  | Some a, Some b => Qle_bool (Qabs (b - a) * inject_Z (2 ^ 30)) (Qabs a)
+  | None, None => true
+  | _, _ => false
+  end.
+Definition cls_of (x : list val) : option (list Z) :=
+  match x with
+  | [] => None                                   (* the harness writes [] for "raised ValueError" *)
+  | _ => Some (map (fun v => match v with Some q => Qnum q | None => -1 end) x)
+  end.
+Definition obs_ok (exact : bool) (vbig : Q) (radius : list Q) (m : obs) (x : option (list val)) : bool :=
+  match m, x with
+  | ONone, None => true
+  | OP a, Some b => all2 (vclose exact) a b
+  | OE a, Some b => all2 (eclose vbig) a b
+  | OI a, Some b => all2 iclose a b              (* calc_ee_at_radius(radius[i]) = current profile[i] *)
+  | OErr, Some [] => true
+  | ORc a, Some b => ee_ok fixed radius a (cls_of b)
+  | _, _ => false
+  end.
+
+Fixpoint trace_ok (cogexact : bool) (vbig : Q) (radius : list Q) (ops : list op) (ms : list (val * obs))
+         (xs : list (val * option (list val))) : bool :=
+  match ops, ms, xs with
+  | [], [], [] => true
+  | o :: ops', (mnv, mo) :: ms', (xnv, xo) :: xs' =>
+      let ex := cogexact && negb (match o with ONorm _ => true | _ => false end) in
+      vclose ex mnv xnv && obs_ok ex vbig radius mo xo &&
+      trace_ok ex vbig radius ops' ms' xs'
+  | _, _, _ => false
+  end.
+
 Record case := {
   k_S : Z; k_ny : Z; k_nx : Z;
   k_data : list (option Z); k_err : option (list (option Z)); k_umask : option (list bool);
   k_apers : list aper; k_radii : list Q; k_radial : bool; k_xc : Q; k_yc : Q;
   k_ops : list op;
+  k_scale : Z;          (* data and error handed to the implementation were multiplied by 2^k_scale *)
   (* implementation's answers *)
   x_radius : list Q; x_area : list val;
   x_trace : list (val * option (list val));          (* after each op: normalization_value, array read *)
@@ -394,7 +418,13 @@ Record case := {
   x_ee : option (option (list Z))                     (* calc_radius_at_ee classes on the final profile *)
 }.
 
-Definition raw_arrays (c : case) : list val * list eval * option (list val) * list val * list Q :=
+(* a float written as mantissa * 2^exponent *)
+Definition Q2 (m e : Z) : Q :=
+  if 0 <=? e then inject_Z (m * 2 ^ e) else Qmake m (Z.to_pos (2 ^ (- e))).
+Definition scale_v (s : Q) (x : val) : val := option_map (fun q => (q * s)%Q) x.
+Definition scale_e (s : Q) (x : eval) : eval := option_map (fun '(c, v) => (c, (v * s * s)%Q)) x.
+
+Definition raw_arrays0 (c : case) : list val * list eval * option (list val) * list val * list Q :=
   let ph := photometry (k_data c) (k_err c) (k_umask c) (k_apers c) in
   let herr := has_err (k_err c) in
   if k_radial c then
@@ -404,20 +434,26 @@ Definition raw_arrays (c : case) : list val * list eval * option (list val) * li
      rad_area (k_S c) ph, mid_radii (k_radii c))
   else (cog_profile (k_S c) ph, cog_perr (k_S c) herr ph, None, cog_area (k_S c) ph, k_radii c).
 
+(* the model is evaluated on the integers; the scale 2^k is applied exactly afterwards *)
+Definition raw_arrays (c : case) : list val * list eval * option (list val) * list val * list Q :=
+  let '(rp, re, rd, area, radius) := raw_arrays0 c in
+  let s := Q2 1 (k_scale c) in
+  (map (scale_v s) rp, map (scale_e s) re, option_map (map (scale_v s)) rd, area, radius).
+
 Definition weights_nonneg (apers : list aper) : bool :=
   forallb (fun a => match a with AW w => forallb (fun x => 0 <=? x) w | _ => true end) apers.
 
 Definition check_case (c : case) : bool :=
   let ph := photometry (k_data c) (k_err c) (k_umask c) (k_apers c) in
   let '(rp, re, rd, area, radius) := raw_arrays c in
-  let vbig := zq (k_S c) (zmaxl (vars ph)) in
+  let vbig := (zq (k_S c) (zmaxl (vars ph)) * Q2 1 (k_scale c) * Q2 1 (k_scale c))%Q in
   let '(st, tr) := run fixed rp re rd (k_ops c) init in
   let '(xnv, xp, xe, xd) := x_final c in
   let ex := negb (k_radial c) && negb (has_norm (k_ops c)) in
   weights_nonneg (k_apers c) && (negb (k_radial c) || rad_sane ph) &&
   all2 Qeq_bool radius (x_radius c) &&
   all2 veq_exact area (x_area c) &&
-  trace_ok (negb (k_radial c)) vbig (k_ops c) tr (x_trace c) &&
+  trace_ok (negb (k_radial c)) vbig radius (k_ops c) tr (x_trace c) &&
   vclose ex (nv st) xnv &&
   all2 (vclose ex) (get_p rp st) xp &&
   all2 (eclose vbig) (get_e re st) xe &&
